@@ -194,16 +194,28 @@ CORPUS = [
 
 
 def small_scope(nkeys=3, nslots=5, maxlen=5):
-    """Bounded exhaustive search (thorough tier): every sequence of exactly `maxlen` set/rem
-    operations over `nkeys` keys (all shorter sequences are its prefixes and every step is compared),
-    for every assignment of home slots in a table of `nslots` slots up to renaming of the keys,
-    followed by get and mem of every key."""
+    """Bounded exhaustive search (thorough tier), for every assignment of home slots in a table of
+    `nslots` slots up to renaming of the keys:
+      (a) every sequence of exactly `maxlen` set/rem operations over `nkeys` keys (all shorter
+          sequences are its prefixes and every step is compared) — rem of an absent key included;
+      (b) every sequence of `maxlen`+1 operations in which rem is only applied to a present key.
+    Each is followed by get and mem of every key."""
     import itertools
     alphabet = ['s%d' % k for k in range(nkeys)] + ['r%d' % k for k in range(nkeys)]
     probe = ' '.join(['g%d' % k for k in range(nkeys)] + ['m%d' % k for k in range(nkeys)])
+
+    def valid(live, depth, acc, out):
+        if depth == maxlen + 1:
+            out.append(tuple(acc)); return
+        for k in range(nkeys):
+            acc.append('s%d' % k); valid(live | {k}, depth + 1, acc, out); acc.pop()
+            if k in live:
+                acc.append('r%d' % k); valid(live - {k}, depth + 1, acc, out); acc.pop()
+    longer = []
+    valid(frozenset(), 0, [], longer)
     for homes in itertools.combinations_with_replacement(range(nslots), nkeys):
         hs = ','.join('%d:%d' % (k, h) for k, h in enumerate(homes))
-        for seq in itertools.product(alphabet, repeat=maxlen):
+        for seq in itertools.chain(itertools.product(alphabet, repeat=maxlen), longer):
             ops = ' '.join(o + (',%d' % i if o[0] == 's' else '') for i, o in enumerate(seq))
             yield hs + '|' + ops + ' ' + probe
 
@@ -253,7 +265,7 @@ def run(ctx):
         return not d.oracle_fail
 
     d.feed(CORPUS, 'corpus')
-    n = 1500 if quick else 60000
+    n = 1500 if quick else 40000
     maxops = 60 if quick else 120
     cases = [gen_case(ctx.rng, maxops if i % 3 else 12) for i in range(n)]
     dense = [gen_dense(ctx.rng, 40 if quick else 80) for i in range(n)]
@@ -270,8 +282,9 @@ def run(ctx):
         if buf: feed_all(buf, 5000)
         ctx.cov['exhaustive_small_scope'] = {
             'kind': 'bounded search (not a proof): validates the model against the library and looks for failing inputs',
-            'scope': 'all sequences of 5 set/rem operations (every prefix compared step by step) over 3 keys, '
-                     'for all 35 assignments of home slots in a 5-slot table up to renaming of keys, each followed by get and mem of every key',
+            'scope': 'all sequences of 5 set/rem operations (every prefix compared step by step; rem of absent keys included) and all '
+                     'sequences of 6 set/rem operations in which rem hits a present key, over 3 keys, for all 35 assignments of home '
+                     'slots in a 5-slot table up to renaming of keys, each followed by get and mem of every key',
             'cases': cnt, 'oracle_failures': len(d.oracle_fail), 'correspondence_failures': len(d.corr_fail),
             'wall_s': round(__import__('time').time() - t0, 1)}
 
